@@ -462,6 +462,10 @@ func (mf *MultiFileAppendable) SetOffset(off int64) error {
 		return nil
 	}
 
+	if off < 0 {
+		return ErrIllegalArguments
+	}
+
 	appID := appendableID(off, mf.fileSize)
 
 	// given the new offset is lower than the current one, it means
